@@ -13,6 +13,9 @@ use super::Run;
 use crate::bind::{RunOpts, run_pipeline};
 use crate::pool::Pool;
 
+/// (format, index into UVALUES) for the formats held by fixed-length strings
+const FORM_FORMATS: [(&str, usize); 6] = [("##.##", 3), ("\\  \\", 7), ("!", 1), ("#,###", 5), ("x#y", 0), ("###", 2)];
+
 const WIDE_LENGTHS: [usize; 16] = [27, 28, 29, 41, 42, 43, 69, 70, 71, 79, 80, 81, 255, 256, 257, 1000];
 
 #[derive(Clone, Debug)]
@@ -188,6 +191,7 @@ impl Gen {
             "using" => (self.formats.len() * self.vlists.len() * 3 * 2) as u64,
             "nested" => 3 * 4 * 3 * 3 * 2,
             "wide" => (WIDE_LENGTHS.len() * 4 * 3) as u64,
+            "forms" => (FORM_FORMATS.len() * 3 * 2 + 12 * 3) as u64,
             "uhist" => {
                 let e = (UEVENTS.len() * 2 * 3) as u64;
                 (1..=(if self.quick { 2u32 } else { 3u32 })).map(|d| e.pow(d)).sum()
@@ -328,6 +332,69 @@ impl Gen {
                     sigkey: format!("depth{}", depth),
                     lines,
                     ops,
+                    defs: String::new(),
+                    expect_err: None,
+                    undecided: None,
+                })
+            }
+            "forms" => {
+                let nfix = (FORM_FORMATS.len() * 3 * 2) as u64;
+                if idx < nfix {
+                    // the format of PRINT USING held by a STRING * n variable / a field of a record
+                    let holder = (idx % 2) as usize;
+                    let dev = ((idx / 2) % 3) as usize;
+                    let (fmt, vi) = FORM_FORMATS[(idx / 6) as usize];
+                    let vals = [UVALUES[vi].1];
+                    let bytes = match using_render(fmt.as_bytes(), &vals) {
+                        UOut::Bytes(b) => b,
+                        _ => return None,
+                    };
+                    let head = match dev {
+                        0 => "PRINT USING",
+                        1 => "LPRINT USING",
+                        _ => "PRINT #1, USING",
+                    };
+                    let var = if holder == 0 { format!("FS{}", idx) } else { format!("FR{}.F", idx) };
+                    let decl = if holder == 0 {
+                        format!("DIM FS{} AS STRING * {}", idx, fmt.len())
+                    } else {
+                        format!("TYPE FixT{}\n  F AS STRING * {}\nEND TYPE\nDIM FR{} AS FixT{}", idx, fmt.len(), idx, idx)
+                    };
+                    let lines = vec![decl, format!("{} = \"{}\"", var, fmt), format!("{} {}; {}", head, var, UVALUES[vi].0)];
+                    return Some(Case {
+                        label: format!("{}: format {:?} held by {}", DEVICES[dev], fmt, if holder == 0 { "a STRING * n variable" } else { "a STRING * n field of a record" }),
+                        sigkey: "fixed-length format".into(),
+                        lines,
+                        ops: vec![Op::Raw(dev, bytes, true)],
+                        defs: String::new(),
+                        expect_err: None,
+                        undecided: None,
+                    });
+                }
+                // PRINT with a trailing separator, or bare, as the THEN part of a single-line IF that has an ELSE part
+                let k = idx - nfix;
+                let dev = (k % 3) as usize;
+                let (then_toks, else_toks, cond): (Vec<Tok>, Vec<Tok>, u8) = match k / 3 {
+                    0 => (vec![Tok::Val(1), Tok::Semi], vec![Tok::Val(0)], 1),
+                    1 => (vec![Tok::Val(1), Tok::Semi], vec![Tok::Val(0)], 0),
+                    2 => (vec![Tok::Val(1), Tok::Comma], vec![Tok::Val(0), Tok::Semi], 1),
+                    3 => (vec![Tok::Val(1), Tok::Comma], vec![Tok::Val(0), Tok::Semi], 0),
+                    4 => (vec![], vec![Tok::Val(1)], 1),
+                    5 => (vec![], vec![Tok::Val(1)], 0),
+                    6 => (vec![Tok::Val(0), Tok::Comma, Tok::Val(1), Tok::Semi], vec![], 1),
+                    7 => (vec![Tok::Val(0), Tok::Comma, Tok::Val(1), Tok::Semi], vec![], 0),
+                    8 => (vec![Tok::Semi], vec![Tok::Comma], 1),
+                    9 => (vec![Tok::Semi], vec![Tok::Comma], 0),
+                    10 => (vec![Tok::Val(5), Tok::Semi], vec![Tok::Val(6), Tok::Comma], 1),
+                    _ => (vec![Tok::Val(5), Tok::Semi], vec![Tok::Val(6), Tok::Comma], 0),
+                };
+                let line = format!("IF {} THEN {} ELSE {}", cond, stmt_text(dev, &then_toks), stmt_text(dev, &else_toks));
+                let taken = if cond == 1 { then_toks } else { else_toks };
+                Some(Case {
+                    label: format!("{}: {}", DEVICES[dev], line),
+                    sigkey: "single-line IF".into(),
+                    lines: vec![line],
+                    ops: vec![Op::Print(dev, taken)],
                     defs: String::new(),
                     expect_err: None,
                     undecided: None,
@@ -601,7 +668,7 @@ pub fn drive(tier: &str) -> i32 {
     let genr = Gen::new(quick);
     let mut cases = vec![];
     let mut plan = vec![];
-    for g in ["nested", "wide", "uhist", "single", "hist", "using"] {
+    for g in ["nested", "wide", "forms", "uhist", "single", "hist", "using"] {
         let t = genr.total(g);
         let chunk = if g == "using" { 400 } else { 200 };
         let mut lo = 0;
@@ -626,7 +693,7 @@ pub fn drive(tier: &str) -> i32 {
         run.capped = true;
     }
     let mut ev = Evidence::new("model_checking");
-    ev.set("rule", "single: every PRINT list of up to 3 (thorough 4) tokens over the value menu (numbers of every type and sign, strings incl. empty, of 13/14/15 characters and with embedded CR, LF, CR LF) and the two separators, no two values adjacent, on screen / LPT1 / file #1 starting at columns 0, 2, 13, 14, 15, 27. hist: the full tree of histories of depth <= 2 (thorough 3) over 32 statement forms x 3 devices. bfs: breadth-first search over the model's states (column residue mod 14 of each device), every (state, event) transition replayed on the implementation after the shortest history reaching the state. using: every format string up to length 3 (thorough 5) over {# . , \\ blank ! x} x value lists (1-3 values, format reuse) x trailing semicolon. uhist: the full tree of histories of depth <= 2 (thorough 3) over 5 PRINT USING statements (formats that are left in the middle, several values, literal tails) and 2 plain ones x trailing semicolon x 3 devices. nested: a PRINT / PRINT USING list on each device whose first, middle or last item calls a FUNCTION that itself PRINTs to each device (ending with nothing, semicolon, comma). After every case each device's hidden column is exposed by `, \"|\"`. Oracle: exact bytes of stdout, LPT1 and both files against the column model. wide: strings of 27 .. 1000 characters (every length within one of 28, 42, 70, 80, 256) in four statement forms (string then comma, the comma in the next statement, between two numbers, twice and a trailing comma) on screen, LPT1 and a file: the comma pads to the next multiple of 14 whatever the width.");
+    ev.set("rule", "single: every PRINT list of up to 3 (thorough 4) tokens over the value menu (numbers of every type and sign, strings incl. empty, of 13/14/15 characters and with embedded CR, LF, CR LF) and the two separators, no two values adjacent, on screen / LPT1 / file #1 starting at columns 0, 2, 13, 14, 15, 27. hist: the full tree of histories of depth <= 2 (thorough 3) over 32 statement forms x 3 devices. bfs: breadth-first search over the model's states (column residue mod 14 of each device), every (state, event) transition replayed on the implementation after the shortest history reaching the state. using: every format string up to length 3 (thorough 5) over {# . , \\ blank ! x} x value lists (1-3 values, format reuse) x trailing semicolon. uhist: the full tree of histories of depth <= 2 (thorough 3) over 5 PRINT USING statements (formats that are left in the middle, several values, literal tails) and 2 plain ones x trailing semicolon x 3 devices. nested: a PRINT / PRINT USING list on each device whose first, middle or last item calls a FUNCTION that itself PRINTs to each device (ending with nothing, semicolon, comma). After every case each device's hidden column is exposed by `, \"|\"`. Oracle: exact bytes of stdout, LPT1 and both files against the column model. wide: strings of 27 .. 1000 characters (every length within one of 28, 42, 70, 80, 256) in four statement forms (string then comma, the comma in the next statement, between two numbers, twice and a trailing comma) on screen, LPT1 and a file: the comma pads to the next multiple of 14 whatever the width. forms: the format of PRINT USING held by a STRING * n variable and by a STRING * n field of a record (6 formats x 3 devices); a PRINT that ends in a separator, or a bare PRINT, as the THEN part of a single-line IF with an ELSE part (6 pairs x both branches x 3 devices).");
     ev.set("exhaustive", !run.capped);
     ev.set("plan", json!(plan));
     ev.set("states", states as u64);
